@@ -371,3 +371,30 @@ Proof.
   unfold Rsec_length, Rsec_zeta, sec_length, sec_zeta. rewrite Rthousand. fold Rinj. rewrite Rinj_INR.
   unfold h. unfold hyd_incomp_np_load_vec. cbv zeta. unfold Rdiv. ring.
 Qed.
+
+(* ---- clause 3, node renumbering: the chain of an n-section pipe is, up to a renaming of its internal nodes into the
+   new junctions, the chain of n one-section pipes in series ---- *)
+Lemma map_pair_combine {X Y} (f : X -> Y) (l1 l2 : list X) :
+  map (fun ab => (f (fst ab), f (snd ab))) (combine l1 l2) = combine (map f l1) (map f l2).
+Proof.
+  revert l2. induction l1 as [|a l1 IH]; intros [|b l2]; simpl; try reflexivity. rewrite IH. reflexivity.
+Qed.
+
+Definition series_pieces {T} (p : @pipe T) (js : list nat) (len zeta : T) : list (@pipe T) :=
+  map (fun ab => Build_pipe (fst ab) (snd ab) 1 len zeta) (combine (p_from p :: js) (js ++ [p_to p])).
+
+Lemma chain_single_sections {T} start (ends : list (nat * nat)) (len zeta : T) :
+  chain start (map (fun ab => Build_pipe (fst ab) (snd ab) 1 len zeta) ends) = ends.
+Proof.
+  revert start. induction ends as [|[a b] r IH]; intros start; simpl; [reflexivity|].
+  unfold chain_one, int_nodes. simpl. rewrite IH. reflexivity.
+Qed.
+
+Lemma chain_sections_eq_series {T} start start' (p : @pipe T) (rho : nat -> nat) js len zeta :
+  rho (p_from p) = p_from p -> rho (p_to p) = p_to p -> map rho (seq start (int_nodes p)) = js ->
+  map (fun ab => (rho (fst ab), rho (snd ab))) (chain_one start p) = chain start' (series_pieces p js len zeta).
+Proof.
+  intros Hf Ht Hj. unfold series_pieces. rewrite chain_single_sections.
+  unfold chain_one. rewrite map_pair_combine. simpl map. rewrite map_app. simpl map.
+  rewrite Hf, Ht, Hj. reflexivity.
+Qed.
